@@ -168,9 +168,6 @@ def stv_run(ctx):
                 if "c02" in checks and sorted(el) != want:
                     ctx.fail("c02:elected-set", f"round {r}: elected {sorted(el)} but candidates at or above threshold are {want}")
                     return out
-                if "c02" in checks:
-                    grouping_ok(ctx, state.elected, {c: t[c] for c in el}, "c02:elected-order",
-                                f"round {r}: simultaneously elected candidates not grouped by tally, descending")
             else:
                 if len(el) != 1:
                     if "c02" in checks:
